@@ -18,6 +18,7 @@ def validate_encoded(string):
 
 def validate_decoded(obj):
   if isinstance(obj, gfapy.OrientedLine):
+    obj.validate()
     if not re.match(r"^[!-~]+\Z", obj.name):
       raise gfapy.FormatError(
           "{} is not a valid oriented GFA2 identifier\n".format(repr(obj.name)))
@@ -42,6 +43,8 @@ def unsafe_encode(obj):
       "(accepted classes: str, gfapy.OrientedLine)")
 
 def encode(obj):
+  if not isinstance(obj, str):
+    validate_decoded(obj)
   string = unsafe_encode(obj)
   validate_encoded(string)
   return string
